@@ -220,6 +220,41 @@ def r_gate(ck: Checker) -> None:
         ck.violation("R-GATE", h, h.node, what, construct="_check_runtime_types: per-field check not recognised / wrong")
 
 
+def r_union_first(ck: Checker) -> None:
+    """isinstance() accepts `X | Y` unions directly: the generic isinstance(value, type_) shortcut must only be reached for
+    annotations that are not unions, otherwise the members (and the bool/int guard of the recursion) are bypassed for one
+    spelling of a union but not for the other."""
+    f = ck.repo.func(TYPING, "is_instance")
+    v, t = f.node.args.args[0].arg, f.node.args.args[1].arg
+    dom = lambda k: (0, 1, 2) if k.startswith("len(") else (True, False)  # noqa: E731
+    leaves = decision_tree(strip_docstring(f.node.body), domain=dom, max_atoms=30, try_as_body=True)
+    k_short = f"isinstance({v}, {t})"
+    k_union = f"is_union({t})"
+    bad = 0
+    n = 0
+    for lf in leaves:
+        keys = list(lf.assign)
+        if k_short not in keys:
+            continue
+        n += 1
+        i = keys.index(k_short)
+        if not (k_union in keys[:i] and lf.assign[k_union] is False):
+            bad += 1
+    what = "is_instance: the generic isinstance(value, type_) shortcut is reached only after the annotation was found not to be a union (both union spellings are decomposed member by member)"
+    if n == 0:
+        ck.incomplete("R-UNION-FIRST", f, f.node, "no path evaluates isinstance(value, type_)")
+    elif bad:
+        ck.violation("R-UNION-FIRST", f, f.node, what, evaluations=n,
+                     construct="is_instance: isinstance(value, type_) is evaluated before unions are decomposed (True conforms to `int | None` but not to Optional[int])")
+    else:
+        ck.holds("R-UNION-FIRST", f, f.node, what, evaluations=n)
+    # the union arm quantifies over all members
+    arms = [r for r in walk_body(f.node.body) if isinstance(r, ast.Return) and r.value is not None
+            and norm(r.value) == f"any((is_instance({v}, t) for t in get_args({t})))"]
+    what = "a value conforms to a union iff it conforms to any member"
+    (ck.holds if arms else ck.violation)("R-UNION-FIRST", f, f.node, what, **({} if arms else {"construct": "is_instance: union arm `any(is_instance(value, t) for t in get_args(type_))` not found"}))
+
+
 def run(ck: Checker) -> None:
     ck.explanation = (
         "Truth table of the leading bool/int guard of is_instance over its identity atoms (must equal: annotation is int AND value is a bool), "
@@ -233,4 +268,5 @@ def run(ck: Checker) -> None:
     ck.guard("R-BOOLGUARD-TT", lambda: r_boolguard(ck))
     ck.guard("R-ZIPGUARD", lambda: r_zipguard_tuple(ck))
     ck.guard("R-GATE", lambda: r_gate(ck))
+    ck.guard("R-UNION-FIRST", lambda: r_union_first(ck))
     ck.require_count("R-GATE", 4)
